@@ -24,8 +24,10 @@ RULE = ("exhaustive enumeration: all ordered pairs and triples of the units of "
         "pairs, every (module, quantity) factor of the gro/xyz/pdb/LAMMPS "
         "dump/LAMMPS data/DL_POLY readers and writers observed through a "
         "one-bead file, every element symbol present in any table of "
-        "tools::Elements. Tolerances: identities 1e-12 relative; reference / "
-        "cross-table agreement: half a unit of the 4th significant digit. A "
+        "tools::Elements. Tolerances: UnitConverter identities 1e-12 "
+        "relative; reference / cross-table agreement: half a unit of the 4th "
+        "significant digit; identities among the independently tabulated "
+        "conv:: constants: relative 5e-5 (defect measured and reported). A "
         "case is non-trivial when it involves two different units / a named "
         "constant / a module factor / an element; distinct = its name.")
 
